@@ -134,7 +134,7 @@ class LoggingCapture(BufferingHandler):
             # kill off all the other log handlers
             for logger in logging.Logger.manager.loggerDict.values():
                 if hasattr(logger, "handlers"):
-                    for handler in logger.handlers:
+                    for handler in logger.handlers[:]:
                         self.old_handlers.append((logger, handler))
                         logger.removeHandler(handler)
 
